@@ -316,6 +316,8 @@ def run(rep):
     finish_refuted(rep, pv, refuted)
     bounded_entry_points(rep, quick)
     rep.assume('evaluate_full_circuit uses the contract of top_sort(inverse=True) (each gate once, operands first), which is what C20 proves (order + completeness step + rule R2)')
+    rep.assume('Circuit.evaluate and Circuit.evaluate_at are proved against the contract of evaluate_circuit (whose body is proved above) for every Boolean input vector of the right length; '
+               'representation facts of the input list: an input sits at exactly one position (W4 + list lemmas); truth-table builders (2^n loops) are bounded-only')
     rep.assume('evaluate_circuit: partial correctness; dict iteration enumerates each key exactly once; W5 used in count form (view link)')
     rep.extra['explanation'] = ('Obligations are generated by symbolic execution of the current source of operators.py, gate.py and the '
                                 'foreign table modules and discharged by z3/cvc5 for all Boolean arguments and (fold induction) all arities.')
